@@ -75,6 +75,9 @@ type Op struct {
 	Address    string `json:"address,omitempty"`
 	Key        string `json:"key,omitempty"`
 	Schema     string `json:"schemaVersion,omitempty"`
+	// OnSchema (Kind=="schema"): the schemaVersion parameter of the InsertSchema REQUEST (the
+	// schema version the write itself is made under; it only has to name an existing schema).
+	OnSchema string `json:"onSchema,omitempty"`
 	// SchemaData is the raw JSON of a schema for Kind=="schema".
 	SchemaData string `json:"schemaData,omitempty"`
 }
@@ -313,7 +316,7 @@ func Apply(ctx context.Context, ctrl ledgercontroller.Controller, op Op) Outcome
 			break
 		}
 		log, _, hit, err := ctrl.InsertSchema(ctx, ledgercontroller.Parameters[ledgercontroller.InsertSchema]{
-			DryRun: op.DryRun, IdempotencyKey: op.IK,
+			DryRun: op.DryRun, IdempotencyKey: op.IK, SchemaVersion: op.OnSchema,
 			Input: ledgercontroller.InsertSchema{Version: op.Schema, Data: sd},
 		})
 		out.Err, out.Log, out.Hit = err, log, hit
